@@ -41,6 +41,16 @@ pub fn make_response(code: u16, variant: &str) -> Response {
         "cl" => Response::new(code).with_header("Content-Length", AsciiString::try_from("3").unwrap()),
         "ct" => Response::text(code, "hi").with_header("content-type", AsciiString::try_from("x/y").unwrap()),
         "te" => Response::new(code).with_header("transfer-encoding", AsciiString::try_from("chunked").unwrap()),
+        // the conflicting field TWICE (in two spellings): a guard that asks for "the only" such field sees none
+        "cl2" => Response::new(code)
+            .with_header("Content-Length", AsciiString::try_from("3").unwrap())
+            .with_header("content-length", AsciiString::try_from("3").unwrap()),
+        "ct2" => Response::text(code, "hi")
+            .with_header("content-type", AsciiString::try_from("x/y").unwrap())
+            .with_header("Content-Type", AsciiString::try_from("x/y").unwrap()),
+        "te2" => Response::new(code)
+            .with_header("transfer-encoding", AsciiString::try_from("chunked").unwrap())
+            .with_header("Transfer-Encoding", AsciiString::try_from("chunked").unwrap()),
         "h" => Response::new(code).with_header("x-a", AsciiString::try_from("b c").unwrap()),
         // body-source faults after the head is on the wire: a file that cannot be opened, and a
         // file shorter than its declared length
